@@ -493,7 +493,10 @@ int EGLPNUM_TYPENAME_ILLsimplex_retest_psolution (
 
 	if (phase == PRIMAL_PHASEII)
 	{
-		if (fbid < bid - PARAM_PRIMAL_RESOLVEGAP)
+		/* partial pricing keeps the reduced costs of its candidates only (and
+		 * never those of fixed columns): the solution handed out needs all */
+		if (fbid < bid - PARAM_PRIMAL_RESOLVEGAP ||
+				(p != NULL && p->p_strategy != COMPLETE_PRICING))
 		{
 			EGLPNUM_TYPENAME_ILLfct_compute_piz (lp);
 			EGLPNUM_TYPENAME_ILLfct_compute_dz (lp);
